@@ -46,6 +46,7 @@ Lemma client_source_shape :
   checkredirect_assignments = 1 /\
   set_policy_empty_is_noop = true /\
   set_policy_installs_closure_over_argument = true /\
+  set_policy_copies_argument = true /\
   set_policy_other_receiver_writes = 0 /\
   set_policy_skips_nil = true /\
   set_policy_first_error_wins = true /\
